@@ -863,7 +863,7 @@ class _AttributeKindTestOrAxis(XPathToken):
     @property
     def source(self) -> str:
         if self.label == 'kind test':
-            return 'attribute(%s)' % ', '.join(tk.source for tk in self)
+            return 'attribute(%s)%s' % (', '.join(tk.source for tk in self), self.occurrence)
         return super().source
 
 
